@@ -4,8 +4,13 @@ from . import core, eng, gen, engcheck
 
 THEOREMS = ["timeout_true_complete", "timeout_false_sound", "interrupted_between", "resume_complete", "lattice_timeout_sound", "lattice_resume_complete", "timeout_false_sound_agg", "timeout_false_sound_agg_from", "resume_complete_agg",
             "timeout_sound_phys", "timeout_true_complete_phys", "resume_complete_phys", "timeout_false_sound_phys_agg", "timeout_true_complete_phys_agg", "resume_complete_phys_agg", "negA_interrupted", "timeout_sound_physLat", "resume_complete_physLat",
-            "timeout_never_panics_physPar", "timeout_sound_physPar", "timeout_true_complete_physPar", "interrupted_between_physPar", "resume_complete_physPar", "resume_timeout_complete_physPar", "tcPar_timeout", "tcPar_interrupted"]
-TRUSTED = ["Props/C14PhysPar.lean (Model/EnginePhysParTimeout.lean, Proofs/PhysParTimeout.lean): run_timeout of an ascent_par! program over its concurrent indices - for EVERY schedule, pool size, deadline oracle and fuel "
+            "timeout_never_panics_physPar", "timeout_sound_physPar", "timeout_true_complete_physPar", "interrupted_between_physPar", "resume_complete_physPar", "resume_timeout_complete_physPar", "tcPar_timeout", "tcPar_interrupted",
+            "timeout_never_panics_physParLat", "timeout_sound_physParLat", "timeout_true_complete_physParLat", "interrupted_between_physParLat", "resume_complete_physParLat", "distPar_timeout", "distPar_interrupted"]
+TRUSTED = ["Props/C14PhysParLat.lean (Model/EnginePhysParLatTimeout.lean, Proofs/PhysParLatTimeout.lean): run_timeout of an ascent_par! program WITH lattices - every schedule, pool, rule-scheduling mode, deadline and fuel, "
+           "from every legal value (well-formed, one row per key): no panic; what it leaves is legal again, keeps every plain row and every lattice key with a value above the old one, and lies below every closed database "
+           "(timeout_sound_physParLat); `true` = closed and least (timeout_true_complete_physParLat); after any history of interrupted calls a completing run() in any pool is closed w.r.t. the ORIGINAL input and least "
+           "(resume_complete_physParLat); needs the flag law of join_mut as runPhysParLat_spec does; tied by `eng runtoppl` / `eng runppl` on ascent_par! lattice programs under every crash point",
+           "Props/C14PhysPar.lean (Model/EnginePhysParTimeout.lean, Proofs/PhysParTimeout.lean): run_timeout of an ascent_par! program over its concurrent indices - for EVERY schedule, pool size, deadline oracle and fuel "
            "the call never panics (frozen / unfrozen protocol, also on the early return: the abandoned locals are dropped, the struct keeps Default indices of the CURRENT pool), what it leaves is well-formed, derivable "
            "and keeps every row (timeout_sound_physPar), `true` means the least model (timeout_true_complete_physPar), and after any history of interrupted calls - each with its own schedule, pool and deadline - a "
            "completing run() in any pool ends, without panic, with the least model of the original rows (resume_complete_physPar); aggregation-free relational programs; tied by `eng runtopp` / `eng runpp` on "
@@ -198,7 +203,7 @@ def canon(c, out):
 
 
 def check(tier, replay=None):
-    return engcheck.run_property("C14", tier, modules=["AscentVerif.Props.C14", "AscentVerif.Props.C13L", "AscentVerif.Props.C13Agg", "AscentVerif.Props.C13Phys", "AscentVerif.Props.C13PhysAgg", "AscentVerif.Props.C13PhysLat", "AscentVerif.Props.C14PhysPar"], theorems=THEOREMS, trusted=TRUSTED, group="c14",
+    return engcheck.run_property("C14", tier, modules=["AscentVerif.Props.C14", "AscentVerif.Props.C13L", "AscentVerif.Props.C13Agg", "AscentVerif.Props.C13Phys", "AscentVerif.Props.C13PhysAgg", "AscentVerif.Props.C13PhysLat", "AscentVerif.Props.C14PhysPar", "AscentVerif.Props.C14PhysParLat"], theorems=THEOREMS, trusted=TRUSTED, group="c14",
                                  build=build, oracle=oracle, canon=canon, what="run_timeout histories on compiled programs under the virtual clock",
                                  rule="generated programs compiled with #![generate_run_timeout] x inputs x EVERY crash point k = 0..13 (k-th clock reading fires; "
                                       "beyond the last reading the call completes) followed by run(), plus repeated interruptions k1 k2 .. then completion; after "
